@@ -175,6 +175,48 @@ def verbChain (fields : List Sexp) : String :=
           let rk := match p.envelope.rootKeyId with | some n => toString n | none => "none"
           "accept rootkeyid=" ++ rk ++ " revids=" ++ ",".intercalate ((revocationIds p.envelope).map encodeHex)
 
+def decScript (items : List Sexp) : Option Rng :=
+  items.mapM fun
+    | .list [.atom "chunk", .atom h] => (decodeHex h).map ReadStep.chunk
+    | .list [.atom "chunkerr", .atom h] => (decodeHex h).map ReadStep.chunkErr
+    | .list [.atom "fail"] => some ReadStep.fail
+    | _ => none
+
+/-- RNG: (case (script step…)) — what drawing a 32-byte seed from the scripted source yields. -/
+def verbRng (fields : List Sexp) : String :=
+  match (field "script" fields).bind decScript with
+  | none => "bad-case"
+  | some rng =>
+    match drawSeed rng with
+    | none => "error"
+    | some (seed, _) => "ok seed=" ++ encodeHex seed
+
+/-- SNAP: (case (bytes xHEX)) — decode an authorizer snapshot with the independent decoder,
+resolve it as `LoadPolicies` does on a fresh authorizer, re-encode from the content. -/
+def verbSnap (fields : List Sexp) : String :=
+  match bytesField "bytes" fields with
+  | none => "bad-case"
+  | some bs =>
+    match Wire.decodePolicies bs with
+    | none => "reject"
+    | some m =>
+      match resolveSnapshot m with
+      | none => "unresolvable"
+      | some snap =>
+        let re := if Wire.encodePolicies (buildSnapshotMsg snap) == bs then "same" else "differ"
+        let pol := snap.policies.map fun p =>
+          tagged (match p.kind with | .allow => "allow" | .deny => "deny") (p.queries.map encRuleSx)
+        "ok " ++ tagged "facts" (snap.facts.map encFactRaw) ++ " " ++ tagged "rules" (snap.rules.map encRuleSx) ++ " " ++
+          tagged "checks" (snap.checks.map encCheckSx) ++ " " ++ tagged "policies" pol ++ " reenc=" ++ re
+
+/-- DECODE: (case (bytes xHEX) …) — does `Unmarshal` accept the bytes? -/
+def verbDecode (fields : List Sexp) : String :=
+  match bytesField "bytes" fields with
+  | none => "bad-case"
+  | some bs => match unmarshal bs with
+    | .ok _ => "ok"
+    | .error _ => "reject"
+
 /-- First pass: which external answers does the case need? -/
 def needOf (verb : String) (sx : Sexp) : Option String :=
   match verb, sx with
@@ -200,6 +242,9 @@ def runVerb (verb : String) (sx : Sexp) : String :=
     | "AUTHSEQ" => verbAuthSeq fields
     | "WIRE" => verbWire fields
     | "CHAIN" => verbChain fields
+    | "RNG" => verbRng fields
+    | "DECODE" => verbDecode fields
+    | "SNAP" => verbSnap fields
     | _ => "bad-verb"
   | _ => "bad-case"
 
